@@ -47,6 +47,15 @@ class ChannelList(gpp.UGenSequence, aob.AbstractSequence, list):
             super(aob.AbstractSequence, self).__init__([obj])
         super(gpp.UGenSequence, self).__init__(self)
 
+    # list defines the in-place forms of + and * as concatenation and
+    # repetition, for a channel list they are the signal operators.
+
+    def __iadd__(self, other):
+        return self.__add__(other)
+
+    def __imul__(self, other):
+        return self.__mul__(other)
+
 
     ### UGen convenience methods (keep in sync with UGen) ###
 
